@@ -1679,6 +1679,7 @@ func (st *gtState) translateFn(g *gen, dir, key string, fn *gtFn, cfg *gtCfg) {
 			// a parameter of a type outside the subset: legal as long as the body never uses it
 		}
 	}
+	explicit := append([]string{}, binders...)
 	binders = append(fn.implicitBinders(), binders...)
 	var rts []string
 	for _, m := range fn.muts {
@@ -1701,6 +1702,35 @@ func (st *gtState) translateFn(g *gen, dir, key string, fn *gtFn, cfg *gtCfg) {
 		bs = " " + bs
 	}
 	fmt.Fprintf(&sb, "Definition %s%s : %s :=\n  %s.\n", fn.coqName, bs, rt, render(node, boolInt(fn.partial), "  "))
+	// The value operations a function happens to use are not part of its interface: `isInt(x)` rewritten as
+	// `_, ok := x.(data.Int)` drops val_kind.  A function over data.Value is therefore ALSO emitted with the whole
+	// value vocabulary as parameters, in the fixed order of valueParamOrder (<name>_V); lemmas are stated about that.
+	if fn.usesV {
+		var vb, va []string
+		vb = append(vb, "(V : Type)")
+		va = append(va, "V")
+		for _, vp := range valueParamOrder {
+			vb = append(vb, "("+vp.name+" : "+vp.typ+")")
+			if fn.valueParams[vp.name] {
+				va = append(va, vp.name)
+			}
+		}
+		for _, pr := range predOrder {
+			if fn.preds[pr] {
+				vb = append(vb, "("+pr+" : Z -> bool)")
+				va = append(va, pr)
+			}
+		}
+		for _, a := range fn.abstracts {
+			vb = append(vb, "("+a.name+" : "+a.typ+")")
+			va = append(va, a.name)
+		}
+		for _, b := range explicit {
+			vb = append(vb, b)
+			va = append(va, strings.TrimPrefix(strings.SplitN(b, " : ", 2)[0], "("))
+		}
+		fmt.Fprintf(&sb, "Definition %s_V %s : %s :=\n  %s %s.\n", fn.coqName, strings.Join(vb, " "), rt, fn.coqName, strings.Join(va, " "))
+	}
 	fn.text = sb.String()
 }
 
